@@ -127,6 +127,24 @@ def run_unit(unit, repo, outdir, extra_args=(), timeout=600):
                                         text='decreases clauses', discharged=True))
         if f.get('vacuity_lines'):
             res.vacuity_expected += 1
+    # hand-written vacuity guards in template text: `fn vacuity__<name>` outside the extracted functions
+    tmpl_vac = []   # (first line, last line, name)
+    try:
+        glines = open(rs).read().split('\n')
+        for i, l in enumerate(glines):
+            m = re.search(r'\bfn (vacuity__\w+)', l)
+            if m and _fn_of_line(meta, i + 1)[0] is None:
+                depth, j, seen = 0, i, False
+                while j < len(glines):
+                    depth += glines[j].count('{') - glines[j].count('}')
+                    seen = seen or '{' in glines[j]
+                    if seen and depth <= 0:
+                        break
+                    j += 1
+                tmpl_vac.append((i + 1, j + 1, m.group(1)))
+    except OSError:
+        pass
+    res.vacuity_expected += len(tmpl_vac)
     obl = {o['name']: o for o in res.obligations}
     vac_failed = set()
     undecided_msgs = []
@@ -142,6 +160,10 @@ def run_unit(unit, repo, outdir, extra_args=(), timeout=600):
             undecided_msgs.append(msg)
             continue
         prim = [l for l in lines if l[1]] or lines
+        tv = [t for t in tmpl_vac if t[0] <= prim[0][0] <= t[1]]
+        if tv:
+            vac_failed.add(tv[0][2])
+            continue
         f, vac = _fn_of_line(meta, prim[0][0])
         if vac:
             vac_failed.add(f['name'])
@@ -182,7 +204,7 @@ def run_unit(unit, repo, outdir, extra_args=(), timeout=600):
         res.status = 'undecided'
         return res
     if res.vacuity_failed_as_expected != res.vacuity_expected:
-        missing = [f['name'] for f in meta['functions'] if f.get('vacuity_lines') and f['name'] not in vac_failed]
+        missing = [f['name'] for f in meta['functions'] if f.get('vacuity_lines') and f['name'] not in vac_failed] + [t[2] for t in tmpl_vac if t[2] not in vac_failed]
         res.reason = 'vacuity guard: precondition of %s is contradictory (assert(false) verified)' % ','.join(missing)
         res.status = 'undecided'
         return res
